@@ -7,7 +7,7 @@ and inversion relations on the OBSERVED values.
 """
 import math
 
-from vlib import monitors, subject
+from vlib import monitors, ref, subject
 
 PROPERTY = 'C20'
 RULE = ('rates over (-0.9, 10] (grid incl. 0 exactly, +-[1e-6, 10] random), '
@@ -27,12 +27,25 @@ ASSUMPTIONS = [
 FLOORS = {'npv_calls': 500, 'pmt_pv_calls': 1000, 'sln_calls': 100,
           'xnpv_calls': 300, 'irr_calls': 100, 'xirr_calls': 100,
           'linearity_relations': 100, 'inversion_relations': 200,
-          'formula_calls': 50}
+          'formula_calls': 50, 'layout_calls': 50}
 ANCHOR_FUNCS = {'xlcalculator/xlfunctions/financial.py': [
     'NPV', 'PMT', 'PV', 'SLN', 'XNPV', 'IRR', 'XIRR', '_xnpv', '_xirr']}
 TIMEOUT = {'quick': 600, 'thorough': 3000}
 
 EPS = 2.220446049250313e-16
+
+
+def layouts_of(flows, rng):
+    """the flows as one row, and as every rows x cols rectangle with more
+    than one row and column that holds exactly these flows (row-major)"""
+    n = len(flows)
+    out = [('row', [list(flows)])]
+    shapes = [(r, n // r) for r in range(2, n) if n % r == 0 and n // r > 1]
+    if shapes:
+        r, c = rng.choice(shapes)
+        out.append((f'{r}x{c}', [list(flows[i * c:(i + 1) * c])
+                                 for i in range(r)]))
+    return out
 
 
 def shards(tier):
@@ -150,6 +163,16 @@ def run(ctx):
                              monitor='linearity', group='NPV-linear')
             if rng.random() < 0.05 and len(formulas) < 400:
                 formulas.append(('NPV-range', r, flows, want, 1e-9 * scale))
+                for lname, mat in layouts_of(flows, rng):
+                    formulas.append(('NPV-matrix', r, mat, want,
+                                     1e-9 * scale))
+            if i % 16 == 0:
+                for lname, mat in layouts_of(flows, rng):
+                    got_l = monitors.call_outcome(F['NPV'], r, T.Array(mat))
+                    ctx.event('layout_calls')
+                    judge('NPV', f'NPV({r}, {mat}) [{lname}]', got_l, want,
+                          1e-9 * scale, 'npv_calls',
+                          ('NPV', lname, len_class(n)))
         # ---- PMT / PV / inversion ---------------------------------------------------
         nper = rng.choice([1, 2, 5, 10, 12, 24, 60, 120, 360])
         pv = round(rng.uniform(-100000, 100000), 2) or 1000.0
@@ -283,9 +306,19 @@ def run(ctx):
                         ctx.fail(f'IRR({flows}) = {v}: NPV at that rate is '
                                  f'{resid}', {'flows': flows, 'rate': v},
                                  monitor='residual', group='IRR-residual')
+                # the same flows laid out as a row and as rectangles (a
+                # range is read row by row)
+                for lname, mat in layouts_of(flows, rng):
+                    got_l = monitors.call_outcome(F['IRR'], T.Array(mat))
+                    ctx.event('layout_calls')
+                    judge('IRR', f'IRR({mat}) [{lname}]', got_l, float(root),
+                          1e-6, 'irr_calls', ('IRR', lname, len_class(k)))
                 if rng.random() < 0.3 and len(formulas) < 400:
                     formulas.append(('IRR-range', None, flows, float(root),
                                      1e-6))
+                    for lname, mat in layouts_of(flows, rng):
+                        formulas.append(('IRR-matrix', None, mat,
+                                         float(root), 1e-6))
                 # XIRR on irregular dates
                 d0 = rng.randint(30000, 50000)
                 dts = [d0]
@@ -324,7 +357,14 @@ def run(ctx):
     # ---- the range-taking spellings as formulas --------------------------------------
     for kind, r, data, want, tol in formulas:
         cells = {}
-        if kind in ('NPV-range', 'IRR-range'):
+        if kind in ('NPV-matrix', 'IRR-matrix'):
+            for i_, row in enumerate(data):
+                for j_, c in enumerate(row):
+                    cells[f'{ref.col_letters(j_ + 1)}{i_ + 1}'] = c
+            rg = f'A1:{ref.col_letters(len(data[0]))}{len(data)}'
+            text = (f'=NPV({subject.lit(r) if r >= 0 else "-" + subject.lit(-r)},{rg})'
+                    if kind == 'NPV-matrix' else f'=IRR({rg})')
+        elif kind in ('NPV-range', 'IRR-range'):
             for j, c in enumerate(data):
                 cells[f'A{j + 1}'] = c
             rg = f'A1:A{len(data)}'
